@@ -65,6 +65,51 @@ var c19Spellings = []string{
 	"/S/c19root/./",
 }
 
+// c19RelSpelling names /S/c19root relative to a working directory: `cwd` is a symbolic absolute path
+// below /S, `dir` is what DirFiles/HashDir are called with after chdir(cwd).
+//
+// Input class added for the gap r3-C19-b: every directory was handed to DirFiles/HashDir as an absolute path
+// (c19Spellings), so the `dir == "."` case of DirFiles (dir cleans to ".", Walk reports top-level entries
+// without any directory part in front) and relative names with leading ".." were never executed; the trees
+// now also have top-level names starting with "." (and their twins without the dot), for which stripping
+// the directory part from the walked path is delicate exactly in that case.
+type c19RelSpelling struct{ cwd, dir string }
+
+var c19RelSpellings = []c19RelSpelling{
+	{"/S/c19root", "."},
+	{"/S/c19root", "./"},
+	{"/S/c19root", "./."},
+	{"/S/c19root", ".//"},
+	{"/S/c19root", "../c19root"},
+	{"/S/c19root", "../c19root/"},
+	{"/S/c19root", ".././c19root/."},
+	{"/S/c19root", ""}, // filepath.Clean("") is "."
+	{"/S", "c19root"},
+	{"/S", "./c19root"},
+	{"/S", "c19root/"},
+	{"/S", "c19root/."},
+	{"/S", "c19root/../c19root"},
+	{"/S", "x/../c19root"}, // x need not exist: cleaned lexically
+}
+
+// c19RelSpellingsFor adds the spellings that go through a directory d of the tree: d/.. from the root,
+// .. from d.
+func c19RelSpellingsFor(rels []string) []c19RelSpelling {
+	out := append([]c19RelSpelling(nil), c19RelSpellings...)
+	seen := map[string]bool{}
+	for _, r := range rels {
+		i := strings.IndexByte(r, '/')
+		if i <= 0 || seen[r[:i]] || len(seen) >= 2 {
+			continue
+		}
+		d := r[:i]
+		seen[d] = true
+		out = append(out, c19RelSpelling{"/S/c19root", d + "/.."}, c19RelSpelling{"/S/c19root/" + d, ".."},
+			c19RelSpelling{"/S/c19root/" + d, "../."}, c19RelSpelling{"/S/c19root/" + d, "../" + d + "/.."})
+	}
+	return out
+}
+
 // c19Spell substitutes the real (clean, absolute) scratch directory for the symbolic /S.
 func c19Spell(scratch, sp string) string {
 	return scratch + strings.TrimPrefix(sp, "/S")
@@ -424,6 +469,40 @@ func init() {
 		}
 		return c19Res(dirhash.HashDir(c19Spell(scratch, sp), prefix, dirhash.Hash1))
 	}
+	// DirFiles / HashDir called with a name of the directory relative to a working directory: the op carries
+	// the working directory (symbolic, below /S) and the relative name, e.g. /S/c19root and ".", /S and
+	// "c19root", /S/c19root/sub and "..".
+	impls["dirhash.dirfilesrel"] = func(a []string) string {
+		cwd, dir, kind, prefix, rels := unhx(a[0]), unhx(a[1]), a[2], unhx(a[3]), unhxList(a[4])
+		scratch := c19Scratch()
+		defer os.RemoveAll(scratch)
+		if err := c19MakeTree(filepath.Join(scratch, "c19root"), kind, rels, nil); err != nil {
+			return "err:setup"
+		}
+		var files []string
+		var err error
+		if !c19WithCwd(c19Spell(scratch, cwd), func() { files, err = dirhash.DirFiles(dir, prefix) }) {
+			return "err:setup"
+		}
+		if err != nil {
+			return c19Err(err)
+		}
+		return hxList(files)
+	}
+	impls["dirhash.hashdirrel"] = func(a []string) string {
+		cwd, dir, kind, prefix, rels, contents := unhx(a[0]), unhx(a[1]), a[2], unhx(a[3]), unhxList(a[4]), unhxList(a[5])
+		scratch := c19Scratch()
+		defer os.RemoveAll(scratch)
+		if err := c19MakeTree(filepath.Join(scratch, "c19root"), kind, rels, contents); err != nil {
+			return "err:setup"
+		}
+		var h string
+		var err error
+		if !c19WithCwd(c19Spell(scratch, cwd), func() { h, err = dirhash.HashDir(dir, prefix, dirhash.Hash1) }) {
+			return "err:setup"
+		}
+		return c19Res(h, err)
+	}
 	impls["dirhash.hashzip"] = func(a []string) string {
 		names, contents := unhxList(a[0]), unhxList(a[1])
 		scratch := c19Scratch()
@@ -664,6 +743,36 @@ func c19GenSpelling(r *Rand) string {
 	return c19Spellings[1+r.Intn(len(c19Spellings)-1)]
 }
 
+// c19GenRelSpelling picks a working directory that exists for this kind of root (c19root itself and the
+// directories below it only when it is a directory) and a relative name: mostly one of /S/c19root,
+// sometimes one that leads elsewhere (missing).
+func c19GenRelSpelling(r *Rand, kind string, rels []string) c19RelSpelling {
+	if r.Chance(8) {
+		return c19RelSpelling{"/S", r.Pick([]string{"nope", "c19root/nope/..//nope", "..c19root", "c19root/.."})}
+	}
+	all := c19RelSpellingsFor(rels)
+	if kind != "dir" {
+		var up []c19RelSpelling
+		for _, rs := range all {
+			if rs.cwd == "/S" {
+				up = append(up, rs)
+			}
+		}
+		all = up
+	}
+	return all[r.Intn(len(all))]
+}
+
+func c19RelTag(rs c19RelSpelling) string {
+	switch {
+	case filepath.Clean(rs.dir) == ".":
+		return "rel:dot"
+	case strings.HasPrefix(filepath.Clean(rs.dir), ".."):
+		return "rel:dotdot"
+	}
+	return "rel:down"
+}
+
 func c19GenPrefix(r *Rand) string {
 	switch r.Intn(10) {
 	case 0, 1, 2:
@@ -678,7 +787,9 @@ func c19GenPrefix(r *Rand) string {
 
 // elements valid in module zips (module.CheckFilePath), pairwise distinct under case folding
 var c19ModElems = []string{"a.go", "b.go", "c d.go", "é.go", "日本.txt", "LICENSE", "x-y", "x.y", "x0", "x", "sub", "internal", ".hidden", "README.md",
-	"~t", "_u", "a+b", "p(1)", "q,r", "Kelvin", "main_test.go"}
+	"~t", "_u", "a+b", "p(1)", "q,r", "Kelvin", "main_test.go",
+	// names starting with a dot, and the same names without it (r3-C19-b: see c19RelSpelling)
+	".gitignore", ".github", ".x", ".sub", "hidden", "..x"}
 
 var c19Mods = []module.Version{
 	{Path: "example.com/m", Version: "v1.0.0"},
@@ -759,6 +870,11 @@ func genC19(g *Gen, n int) {
 		g.Emit("dirhash.dirfilesat "+hx(sp)+" dir "+hx("m@v1.0.0")+" "+hxList([]string{"a.go", "sub/b.go"}), true, "boundary", "dirfilesat")
 		g.Emit("dirhash.hashdirat "+hx(sp)+" dir "+hx("m@v1.0.0")+" "+hxList([]string{"a.go", "sub/b.go"})+" "+hxList([]string{"x", ""}), true, "boundary", "hashdirat")
 	}
+	for _, rs := range c19RelSpellingsFor([]string{"sub/b.go"}) {
+		rels := []string{"a.go", "sub/b.go", ".gitignore", ".sub/b.go", ".a.go"}
+		g.Emit("dirhash.dirfilesrel "+hx(rs.cwd)+" "+hx(rs.dir)+" dir "+hx("m@v1.0.0")+" "+hxList(rels), true, "boundary", "dirfilesrel")
+		g.Emit("dirhash.hashdirrel "+hx(rs.cwd)+" "+hx(rs.dir)+" dir "+hx("m@v1.0.0")+" "+hxList(rels)+" "+hxList([]string{"x", "", "y", "z", "w"}), true, "boundary", "hashdirrel")
+	}
 	g.Emit("dirhash.sha256 -", true, "boundary")
 	g.Emit("dirhash.sha256 "+hx("abc"), true, "boundary")
 	for g.st.Ops < n {
@@ -810,6 +926,10 @@ func genC19(g *Gen, n int) {
 				sp := c19GenSpelling(g.Rand)
 				g.Emit("dirhash.dirfilesat "+hx(sp)+" "+kind+" "+hx(pfx)+" "+hxList(rels), len(rels) >= 1 || kind != "dir", "dirfilesat", "spelling:"+sp)
 			}
+			if g.Chance(50) { // the same directory named relative to a working directory
+				rs := c19GenRelSpelling(g.Rand, kind, rels)
+				g.Emit("dirhash.dirfilesrel "+hx(rs.cwd)+" "+hx(rs.dir)+" "+kind+" "+hx(pfx)+" "+hxList(rels), len(rels) >= 1 || kind != "dir", "dirfilesrel", c19RelTag(rs))
+			}
 		case 13, 14, 15:
 			kind := "dir"
 			if g.Chance(6) {
@@ -827,6 +947,11 @@ func genC19(g *Gen, n int) {
 				sp := c19GenSpelling(g.Rand)
 				g.Emit("dirhash.hashdirat "+hx(sp)+" "+kind+" "+hx(pfx)+" "+hxList(rels)+" "+hxList(contents),
 					len(rels) >= 1 || kind != "dir", "hashdirat", "spelling:"+sp)
+			}
+			if g.Chance(50) {
+				rs := c19GenRelSpelling(g.Rand, kind, rels)
+				g.Emit("dirhash.hashdirrel "+hx(rs.cwd)+" "+hx(rs.dir)+" "+kind+" "+hx(pfx)+" "+hxList(rels)+" "+hxList(contents),
+					len(rels) >= 1 || kind != "dir", "hashdirrel", c19RelTag(rs))
 			}
 		case 16, 17: // raw archive: arbitrary entry names, duplicates, directory entries
 			names, contents := c19GenSet(g.Rand, g.Chance(30))
@@ -1082,7 +1207,45 @@ func c19OracleSpellings(g *Gen, scratch, dir, prefix, hz string, errz error, rep
 			return false
 		}
 	}
-	return true
+	// the same for names of the directory relative to a working directory (".", "../c19root" from inside
+	// it, "c19root" from its parent, "sub/.." ...): again only spellings that the operating system
+	// confirms to denote the extraction directory
+	ok := true
+	for _, rs := range c19RelSpellingsFor(rels) {
+		if !ok {
+			break
+		}
+		c19WithCwd(c19Spell(scratch, rs.cwd), func() {
+			fi, err := os.Stat(rs.dir)
+			if err != nil || !os.SameFile(ref, fi) {
+				return
+			}
+			g.Case("zip-dir-agree-relative-dir")
+			info := fmt.Sprintf("directory named %q from the working directory %q (same file as %q)", rs.dir, rs.cwd, "/S/c19root")
+			replayAt := "dirhash.hashdirrel " + hx(rs.cwd) + " " + hx(rs.dir) + " dir " + hx(prefix) + " " + hxList(rels) + " " + hxList(contents)
+			replayFiles := "dirhash.dirfilesrel " + hx(rs.cwd) + " " + hx(rs.dir) + " dir " + hx(prefix) + " " + hxList(rels)
+			var got []string
+			if e := c19Guard(func() (e error) { got, e = dirhash.DirFiles(rs.dir, prefix); return }); e != nil {
+				g.Fail("DirFiles fails or panics on a relative name of the extraction directory", info+": "+e.Error(), replayFiles, replayAt)
+				ok = false
+				return
+			}
+			if strings.Join(got, "\x00") != strings.Join(want, "\x00") {
+				g.Fail("DirFiles lists different names for an absolute and a relative name of the same directory",
+					fmt.Sprintf("%s: %q, by absolute path %q", info, got, want), replayFiles, replayAt)
+				ok = false
+				return
+			}
+			var hd string
+			e := c19Guard(func() (e error) { hd, e = dirhash.HashDir(rs.dir, prefix, dirhash.Hash1); return })
+			if e != nil || errz != nil || hd != hz {
+				g.Fail("HashZip of a module zip differs from HashDir of the directory it extracts to (directory named relative to the working directory)",
+					fmt.Sprintf("%s: zip=%q,%v dir=%q,%v", info, hz, errz, hd, e), replayAt, replayBase)
+				ok = false
+			}
+		})
+	}
+	return ok
 }
 
 // c19OracleZipDir: HashZip(zip.Create(files)) == HashDir(zip.Unzip(...), prefix) for the prefix
